@@ -258,9 +258,15 @@ def run_pipe1(case):
     p = Probe(cfg, symbols=case.get("symbols"), base=case["base"], monitors=[coherent_monitor()])
     p.run()
     res.evals += 1
+    res.states += p.events
+    res.trans += p.events
+    res.outcome(("pipe1", tuple(sorted((k, repr(v)) for k, v in cfg.items())), case["base"]), nontrivial=True)
+    if p.exc is not None:
+        res.bump("aborted_runs")
     for key, msg, det in p.viol[:3]:
-        res.violate(key, msg, case)
-    if p.completed:
+        res.violate(key, msg + f" [cfg={cfg}]", case)
+    with p._env():
+      if p.completed:
         want_blobs = p.cfg["eval"] in ("blobs", "poolobj_blobs")
         f = TARGETS[p.cfg["target"]]
         for rs, trim, rb in itertools.product([False, True], repeat=3):
@@ -395,6 +401,12 @@ def plan(ctx):
                         ({"eval": "vec"}, {"eval": "vec", "target": "bimodal", "n_particles": 12}))
            for sh in range(2)]
     ctx.explore("two-samplers-interleaved", duo)
+    # exact ties in logL (plateau) with blobs, and a likelihood whose value depends on the caller's numpy error state
+    sp = [{"kind": "pipe1", "cfg": dict(n_particles=16, d=2, n_total=64, target="plateau", eval=ev, sample=k, blob_form=bf, clustering=cl), "base": ctx.seed + b}
+          for ev in ("blobs", "poolobj_blobs") for k in ("tpcn", "rwm") for bf in (None, "vector") for cl in (False, True) for b in ((0, 3) if th else (0,))]
+    sp += [{"kind": "pipe1", "cfg": dict(n_particles=16, d=2, n_total=64, target="errsens", eval=ev, sample=k, env="over-raise", clustering=cl), "base": ctx.seed + b}
+           for ev in ("scalar", "blobs", "vec") for k in ("tpcn", "rwm") for cl in (False, True) for b in ((0, 3) if th else (0,))]
+    ctx.explore("exact-ties-and-error-state", sp)
     from mc import session as _s2
     ctx.explore("resume-with-other-options", [{"kind": "cross", "cfg": dict(n_particles=16, d=2, n_total=48, eval="scalar", clustering=False), "pair": list(pr), "base": ctx.seed + b} for pr in _s2.CROSS for b in ((0, 5) if th else (0,))])
     ctx.bounds.update({"session": {"alphabet": ["S (iterate)", "V0/V1 (save_state to slot)", "L0/L1 (load_state from slot)"], "depth": "all sequences to depth 7 (thorough) / 5 (quick) + 57 longer save/branch/roll-back patterns (length <= 9)", "warm_iterations": 3}})
